@@ -142,9 +142,7 @@ Definition known_b (c : case) : Z :=
               (* class 5: exact Decimal, but the way back goes through i128 *)
               match bk with BRes (Err 1) => 5 | _ => 0 end
             else 0
-        | FPanic =>
-            (* class 3: from_i128_with_scale called with a scale above 28 *)
-            if ((k =? 0) || (k =? 1)) && (28 <? D - sd) then match bk with BNA => 3 | _ => 0 end else 0
+        | FPanic => 0   (* class 3 (from_i128_with_scale with a scale above 28) is fixed: any panic is a violation *)
         | FNone =>
             (* class 4: representable large value rejected because decimals < dropped digits *)
             if (D <? sd) && (D <=? 28) && repr_b num D then match bk with BNA => 4 | _ => 0 end else 0
@@ -167,15 +165,5 @@ Definition known_b (c : case) : Z :=
         | _ => 0
         end
       else 0
-  | Back k d decimals bk =>
-      (* class 6: "`value` is too big" is raised while the rescaled Decimal has a scale >= 31;
-         formatting it for the error message panics.  j = multiplications by ten that fit 96 bits *)
-      match bk with
-      | BPanic =>
-          if negb (dm d =? 0) && (dsc d <? decimals) then
-            let j := Z.min (decimals - dsc d) (digits10 40 (M96 / dm d)) in
-            if (31 <=? dsc d + j) && negb (in_s 128 (sgn_mant d * 10 ^ (decimals - dsc d))) then 6 else 0
-          else 0
-      | _ => 0
-      end
+  | Back k d decimals bk => 0   (* class 6 (panic while formatting the error) is fixed: any panic is a violation *)
   end.
